@@ -278,7 +278,7 @@ def optimise_savings(
     penalised_saving = penalise_savings(next_savings, alpha, betas)
     candidate_savings = opt_savings[starts] + penalised_saving
     argmax = np.argmax(candidate_savings)
-    opt_start = starts[0] + argmax
+    opt_start = starts[argmax]
     return candidate_savings[argmax], opt_start, candidate_savings
 
 
